@@ -17,8 +17,13 @@ META = {
                   'struct layout (80 bytes, no padding, x86-64) is used only by the harness to inject prior contents.',
     'design_ref': '§6 C13',
 }
-REQUIRED = []
-BV_OK = ()
+REQUIRED = ['Librfn.C13.' + n for n in ('init_independent_of_prior', 'init_validates', 'encode_decode_id', 'encode_decode_canon', 'describes_file',
+                                        'set_num_frames_idempotent_in_frames', 'canon_made', 'd10_old_setNumFrames_breaks_roundtrip',
+                                        'd4_old_init_depends_on_prior', 'd3_old_init_chunk_size')]
+# byte-order lemmas proved by bv_decide (axioms `<lemma>._native.bv_decide.ax_*`) and the C13 theorems that rest on them
+BV_LEMMAS = {'Librfn.C12.dec16_encU16le', 'Librfn.C12.dec32_encU32le', 'Librfn.Lemmas.WavCodec.enc_dec32', 'Librfn.Lemmas.WavCodec.enc_dec16'}
+BV_OK = {'Librfn.C13.' + n for n in ('decode_pcm_list', 'decode_float_list', 'encode_decode_canon', 'encode_decode_id', 'decode_encode_id',
+                                     'encBytes_decoded', 'decode_encode_id_list')}
 
 HLEN = {0: 44, 1: 44, 2: 58}
 ID = {'cid': pw.RIFF.hex(), 'fmt': pw.WAVE.hex(), 'fid': pw.FMT_.hex(), 'did': pw.DATA.hex()}
@@ -242,7 +247,7 @@ def harness(ctx):
 
 
 def bv_allow(thm, ax):
-    return thm in BV_OK and ax.startswith(thm + '._native.bv_decide.ax_')
+    return thm in BV_OK and '._native.bv_decide.ax_' in ax and ax.split('._native.bv_decide.ax_')[0] in BV_LEMMAS
 
 
 def run(ctx):
